@@ -690,6 +690,7 @@ def _get_simple_equalities(lits: list[AST]) -> list[AST]:
             and lit.atom.ast_type == ASTType.Comparison
             and lit.atom.term.ast_type == ASTType.Variable
             and lit.atom.guards[0].term.ast_type == ASTType.Variable
+            and "_" not in (lit.atom.term.name, lit.atom.guards[0].term.name)  # every _ is a variable of its own
         ):
             if (lit.sign == Sign.NoSign and lit.atom.guards[0].comparison == ComparisonOperator.Equal) or (
                 lit.sign == Sign.Negation and lit.atom.guards[0].comparison == ComparisonOperator.NotEqual
@@ -788,6 +789,8 @@ def replace_assignments(stm: AST) -> AST:
             lit.ast_type == ASTType.Literal
             and lit.atom.ast_type == ASTType.Comparison
             and lit.atom.term.ast_type == ASTType.Variable
+            and lit.atom.term.name != "_"
+            and "_" not in [var.name for var in collect_ast(lit.atom.guards[0].term, "Variable")]
             and not has_interval(lit.atom.guards[0].term)
         ):
             if (lit.sign == Sign.NoSign and lit.atom.guards[0].comparison == ComparisonOperator.Equal) or (
